@@ -47,7 +47,9 @@ def run(ctx):
             over_budget = (opts.get("max_prior_samples") or 0) > pb.N      # a budget beyond the library may be refused
             if over_budget:
                 ctx.count("raised_budget_beyond_library")
-            if not must_raise and S["inj_kind"] != "neg-inf" and not over_budget:
+            # a non-finite likelihood among the evaluated rows (numerically singular design) makes the in-memory guard
+            # raise and leaves the cache path without any acceptable sample: a surfaced failure, which the property allows
+            if not must_raise and S["inj_kind"] != "neg-inf" and not over_budget and not nonfinite_seen:
                 ctx.exception(S["raised"], "iterative_rejection_sample raised on a request the library can serve", desc,
                               key="unexpected-raise")
             continue
